@@ -20,7 +20,7 @@ def run(ctx):
     if "WithinLimit" not in r.invariant_violated:
         raise core.MachineryError("model insensitive: SliceIgnoresRunning does not violate WithinLimit")
     behs = sc.tlc_schedules(ctx, "c16_sched", graphs, "KLim", fails="none", simulate=2500 if ctx.thorough else 300, seed=ctx.seed + 9)
-    pick = ctx.rng.sample(behs, min(len(behs), 400 if ctx.thorough else 30))
+    pick = sc.pick_schedules(ctx, behs, 400 if ctx.thorough else 30)
     specs = sc.schedules_to_specs(pick, "cf")
     obs = core.tmap(sc.run_and_trace, specs, threads=8)
     items = sc.judge_runs(ctx, specs, obs, "C16")
